@@ -19,6 +19,7 @@ EXHAUSTIVE = "all request sequences up to length 3 over the 16-request menu"
 RULE += " " + 'Dataset kind nccdf: NetCDF inputs with stored cdf/quantiles and per-variable fill values.'
 RULE += " " + "Rounds 9-10: histories contain diagrams drawn from the same Data object (fss, droc, reliability, discrimination, timeseries); the Data object's times, lead times and locations are compared after every history."
 RULE += " " + 'Rounds 11-12: kind thin (exactly one dimension with more than one entry); axes of one dimension with coinciding slice values (leadtime / leadtimeday, time / day / year).'
+RULE += " " + 'Rounds 13-14: what a diagram draws (curve, bar and point coordinates) is its answer and is compared with the same diagram on a fresh dataset; nccdf histories contain igncontrib / roc / marginal / economicvalue with the below, below=, above and above= event types on forecasts with probabilities of exactly 0 and 1.'
 ASSUMPTIONS = ["the caller does not write into returned arrays"]
 REQUIRED_COUNTERS = ["histories", "calls_checked", "ledger_checks", "input_hash_checks", "repeat_pairs"]
 ANCHOR_FUNCS = ["Data.get_scores", "Data._get_score"]
